@@ -181,6 +181,9 @@ def routine_cases(tier):
                 for which in ("LM", "SM"):
                     for alg in ("Auto", "DenseSVD", "Lanczos"):
                         out.append(["ROUTINE", "svd", [m, n], tok, k, which, alg])
+    for (m, n) in shapes:
+        for tok in ("f8", "c16"):
+            out.append(["ROUTINE", "LanczosSVD", [m, n], tok])
     for n in ns:
         for kind in ("Identity", "Diagonal"):
             for k in range(1, n + 1):
@@ -276,6 +279,14 @@ def observe_routine(term, seed):
                 from cola.linalg.svd.svd import svd
                 U, S, V = svd(A, k, which, _alg(alg, max(shp)))
                 outs += [("U", U), ("S", S), ("V", V)]
+            elif kind == "LanczosSVD":  # the callable decomposition object cola.linalg.LanczosSVD()(A)
+                _, _, shp, tok = term
+                M = P.dense(seed, tuple(shp), tok, "g").astype(np.complex128)
+                M = M + np.eye(*shp) * 5
+                A = ops.Dense(M.astype(P.DT[tok]))
+                from cola.linalg.decompositions.decompositions import LanczosSVD
+                U, S, V = LanczosSVD(max_iters=max(shp) + 2, tol=1e-12)(A)
+                outs += [("U", U), ("S", S), ("V", V)]
             elif kind == "svd-struct":
                 _, _, sk, n, tok, k = term
                 from cola.linalg.svd.svd import svd
@@ -320,6 +331,9 @@ def sig(t):
         if t[1] == "svd":
             m, n = t[2]
             return f"{'sq' if m == n else ('tall' if m > n else 'wide')},{t[3]},k{'=min' if t[4] == min(m, n) else '<min'},{t[5]},{t[6]}"
+        if t[1] == "LanczosSVD":
+            m, n = t[2]
+            return f"{'sq' if m == n else ('tall' if m > n else 'wide')},{t[3]}"
         if t[1] == "svd-struct":
             return f"{t[2]},k{'=n' if t[5] == t[3] else '<n'}"
         if t[1] == "unary":
